@@ -56,7 +56,7 @@ CLAIMED = {
              'printed DOCUMENT and hence the text at every width is identical). Oracle on the implementation: '
              'eval(output) == truncated value type-exactly, notices == expected counts in document order, None == 10**9.',
         design='5.3 C10', technique='Coq proofs (evaluation round trip with truncation; document stability) + differential correspondence + oracle',
-        note=COMMON_NOTE + ' Fragment-level tokens: the theorems are stated on the token class each fragment carries; that the concatenated text lexes/parses to those tokens and that PyEval.eval agrees with CPython is validated by the oracle (tokenize/ast/eval on every generated output), not proved. repr(float), set iteration order and the order returned by sorted() are observed inputs of the model.' The dict notice is covered by the correspondence only.'),
+        note=COMMON_NOTE + ' Fragment-level tokens: the theorems are stated on the token class each fragment carries; that the concatenated text lexes/parses to those tokens and that PyEval.eval agrees with CPython is validated by the oracle (tokenize/ast/eval on every generated output), not proved. repr(float), set iteration order and the order returned by sorted() are observed inputs of the model. The dict notice is covered by the correspondence only.'),
     'C11': dict(
         text='Theorems C11_denotes (every layout under a depth limit denotes etoks(expr_of) at that depth; expr_of\'s depth '
              'clauses are the exact cut function), C11_cut_at_zero (each type\'s placeholder), C11_above_height '
